@@ -138,6 +138,19 @@ def c_grid(chk):
     chk.vc("Grid.inverse.compact-pp", d.pc + c.pc, Eq(fwd[2], rp), func=f"{fn}.compactify")
     chk.canary("Grid.inverse", c.pc, Eq(back[0], 2 * z), func=f"{fn}.compactify")
     chk.vc("Grid.compact-range", c.pc, And(Gt(zC, -1), Lt(zC, 1)), func=f"{fn}.compactify")
+    # the maps are pure: arrays handed to them (e.g. the grid's own cached coordinates, which getCoordinates returns by reference) are
+    # not modified
+    for meth, names in (("compactify", ("z", "pz", "pp")), ("decompactify", ("chi", "rz", "rp")), ("compactificationDerivatives", ("chi", "rz", "rp"))):
+        orig = [as_array([real(f"{n}.a0"), real(f"{n}.a1")]) for n in names]
+
+        def mka(it, orig=orig):
+            for c_ in GRID_INV:
+                it.assume(c_)
+            arrs = [a.copy() for a in orig]
+            return make_grid(), arrs, {}, {"arrs": arrs}
+        for i, p in enumerate(sel(chk.summarize("grid", f"Grid.{meth}", mka, record=False))):
+            same = all(a.shape == b.shape and all(x is y or x == y for x, y in zip(a.reshape(-1), b.reshape(-1))) for a, b in zip(p.state["arrs"], orig))
+            chk.vc(f"Grid.{meth}.arguments-not-modified.{i}", p.pc, sym.to_sym(bool(same)), func=f"{fn}.{meth}", kind="frame")
 
 
 def c_grid3_params(chk):
